@@ -1,7 +1,8 @@
 """C09 - Tally and Counter report the textbook statistics of the registered observations.
 
 Case (JSON):
-  {"variant": "tally" | "eb" | "eb_sub" | "eb_sub1" | "counter" | "eb_counter" | "eb_counter_sub",
+  {"variant": "tally" | "eb" | "eb_sub" | "eb_sub1" | "counter" | "eb_counter" | "eb_counter_sub" | "eb_sim" |
+              "eb_counter_sim"  (SimTally / SimCounter of a simulator that is not initialised),
    "via":     "register" | "notify" | "producer"   (event-based variants only: feed through notify(Event(DATA_EVENT, x)),
                                                   or fired by an EventProducer the statistic listens to)
    "cls":     label of the data class the generator used (informative only)
@@ -202,7 +203,9 @@ def strategy(tier):
     def case(draw):
         variant = draw(st.sampled_from(["tally", "tally", "eb", "eb_sub", "eb_sub", "eb_sub", "eb_sub1",
                                         "tally", "eb_sub", "tally", "eb_sub1", "eb", "eb_sub", "tally",
-                                        "counter", "eb_counter", "eb_counter_sub"]))
+                                        "counter", "eb_counter", "eb_counter_sub",
+                                        # the simulation-aware subclasses (same contract; not initialised simulator)
+                                        "eb_sim", "eb_sim", "eb_counter_sim"]))
         via = draw(st.sampled_from(["register", "register", "notify", "producer"]))
         if variant.startswith("counter") or variant.startswith("eb_counter"):
             val = st.one_of(st.just(1), st.integers(-5, 5), st.integers())
@@ -647,6 +650,11 @@ def run_case(case):
         stat = Tally("t")
     elif variant == "counter":
         stat = Counter("c")
+    elif variant in ("eb_sim", "eb_counter_sim"):
+        from pydsol.core.simulator import DEVSSimulatorFloat
+        from pydsol.core.statistics import SimCounter, SimTally
+        sim_ = DEVSSimulatorFloat("c09-sim")
+        stat = SimCounter("c", "counter", sim_) if counter else SimTally("t", "tally", sim_)
     elif counter:
         stat = EventBasedCounter("c")
     else:
